@@ -47,8 +47,9 @@ META = dict(
             'points: every listed point and the points 1 hour before and '
             'after it inside a 4-day (quick; the first 8 and last 2 listed '
             'points; gregorian and 360day each followed by one other '
-            'calendar; final point none / +P4D) / 45-day (thorough) window, '
-            'two query orders'],
+            'calendar; final point none / +P4D) / 12-day (thorough: all listed points, every '
+            'calendar followed by two others, final point also +P40D) '
+            'window, two query orders'],
     stubs=['none'],
     assumptions=['queries at or after the recurrence start for '
                  'get_next_point_on_sequence / get_prev_point on listed '
@@ -143,7 +144,7 @@ def _check(ri, ii, ei, cal, big):
         return True
     icp = P(f'{y:04d}{m:02d}{d:02d}T{h:02d}00Z')
     fcp = None if ENDS[ei] is None else icp + ISO8601Interval(ENDS[ei])
-    hours = WINDOW_H if not big else 45 * 24
+    hours = WINDOW_H if not big else 12 * 24
     if 'P1M' in RECS[ri]:
         hours = 100 * 24
     hi = icp + ISO8601Interval(f'PT{hours}H')
@@ -227,7 +228,7 @@ def _check(ri, ii, ei, cal, big):
 
 
 def _run(ri, ii, ei, c1, big=False):
-    for c2 in (range(len(_dt.CALS)) if big else [(c1 + 1) % 4]):
+    for c2 in ([(c1 + 1) % 4, (c1 + 2) % 4] if big else [(c1 + 1) % 4]):
         for cal in (_dt.CALS[c1], _dt.CALS[c2]):
             if not _check(ri, ii, ei, cal, big):
                 return False
